@@ -275,7 +275,7 @@ def option_models():
     add("const-assign-vec", "  Real y[2];\n  Real x;\n  Real z;\n", "  y = {1, 2};\n  x = 3;\n  z = x + y[1];\n")
     add("const-assign-scalar", "  Real x;\n  Real z;\n  Real w;\n", "  x = 3;\n  0 = z;\n  w = x + z + time;\n")
     add("dep-values", "  parameter Real p = 2;\n  parameter Real q = 3 * p;\n  constant Real k = 4;\n  constant Real k2 = k * 2;\n"
-        "  Real x(max = q, min = -k2);\n  Real y(nominal = q + k);\n", "  x = q * time + k2;\n  der(y) = p * x - k;\n")
+        "  Real x(max = q, min = -2 * p);\n  Real y(nominal = q + 1);\n", "  x = q * time + k2;\n  der(y) = p * x - k;\n")
     add("alias-chain", "  Real a, b, c;\n  Real v[2], w[2];\n  input Real u;\n", "  a = b;\n  c = -a;\n  b = u * time;\n  v = w;\n"
         "  for i in 1:2 loop\n    w[i] = i * u;\n  end for;\n")
     return ms
